@@ -42,7 +42,7 @@
  "unwind_reason": "link_proc is loop-free; only harness/stub loops are unwound: over the 255 possible name bytes (name_len is an 8-bit on-disk field); unwinding assertions on",
  "timeout": 300,
  "functions": ["lib/ext2fs/link.c:link_proc", "lib/ext2fs/dir_iterate.c:ext2fs_get_rec_len", "lib/ext2fs/dir_iterate.c:ext2fs_set_rec_len"],
- "assumes": ["SYMBOLIC BLOCK OF 64 BYTES (blocksize argument and fs->blocksize are 64): smaller than any legal ext2 block size; link_proc and the rec_len helpers depend on the block size only through comparisons with it (and the < 65536 branch), so this is evidence parametric in the block size, not a proof for 1024/4096-byte blocks, which CBMC cannot do (every typed access at a symbolic offset costs O(block size) and the SAT problem grows ~5x per doubling: 64 B 14 s, 128 B 70 s, 256 B > 250 s per clause)", "requested names are therefore limited to what fits (name_len <= 56); IN.namelen itself ranges over 1..255", "the entry handed to the callback satisfies what ext2fs_process_dir_block checks before calling: 4-aligned offset < blocksize-8, rec_len >= 8, multiple of 4, offset+rec_len <= blocksize, name_len+8 <= rec_len, and it is not the checksum tail (the caller does not pass DIRENT_FLAG_INCLUDE_CSUM)", "ls->namelen == strlen(ls->name) <= 255, ls->err == 0, ls->sb == fs->super, callback blocksize == fs->blocksize (block directories; inline-data directories are not covered)", "libc strncpy is an over-approximating stub in the unit: the whole block becomes arbitrary except that, at every byte position the code or the specification later reads (headers of E, of the entry behind E, of the tail slot, the frame byte k, name byte j of both entries), bytes outside dst[0..n) are unchanged and dst[j] has the ISO C value; destination range asserted to be inside the block", "without the filetype feature the type byte of the new entry is only claimed to be 0 when the reused slot's stale type byte was 0 (always the case on a filesystem that never had the feature)", "superblock feature words other than metadata_csum / filetype bits arbitrary"],
+ "assumes": ["SYMBOLIC BLOCK OF 64 BYTES (blocksize argument and fs->blocksize are 64): smaller than any legal ext2 block size, i.e. evidence parametric in the block size (see link_proc_1k_c* for a real block size); link_proc and the rec_len helpers depend on the block size only through comparisons with it (and the < 65536 branch); units exist for 64 and 128 B (all pre-states in one run), 256 B and 1 KiB (the smallest legal ext2 block; four exhaustive pre-state cases, kissat); 4 KiB is beyond the time budget (every typed access at a symbolic offset costs O(block size))", "requested names are therefore limited to what fits (name_len <= 56); IN.namelen itself ranges over 1..255", "the entry handed to the callback satisfies what ext2fs_process_dir_block checks before calling: 4-aligned offset < blocksize-8, rec_len >= 8, multiple of 4, offset+rec_len <= blocksize, name_len+8 <= rec_len, and it is not the checksum tail (the caller does not pass DIRENT_FLAG_INCLUDE_CSUM)", "ls->namelen == strlen(ls->name) <= 255, ls->err == 0, ls->sb == fs->super, callback blocksize == fs->blocksize (block directories; inline-data directories are not covered)", "libc strncpy is an over-approximating stub in the unit: the whole block becomes arbitrary except that, at every byte position the code or the specification later reads (headers of E, of the entry behind E, of the tail slot, the frame byte k, name byte j of both entries), bytes outside dst[0..n) are unchanged and dst[j] has the ISO C value; destination range asserted to be inside the block", "without the filetype feature the type byte of the new entry is only claimed to be 0 when the reused slot's stale type byte was 0 (always the case on a filesystem that never had the feature)", "superblock feature words other than metadata_csum / filetype bits arbitrary"],
  "native": false
 }
 */
@@ -62,7 +62,7 @@
  "unwind_reason": "link_proc is loop-free; only harness/stub loops are unwound: over the 255 possible name bytes (name_len is an 8-bit on-disk field); unwinding assertions on",
  "timeout": 400,
  "functions": ["lib/ext2fs/link.c:link_proc", "lib/ext2fs/dir_iterate.c:ext2fs_get_rec_len", "lib/ext2fs/dir_iterate.c:ext2fs_set_rec_len"],
- "assumes": ["SYMBOLIC BLOCK OF 128 BYTES (blocksize argument and fs->blocksize are 128): smaller than any legal ext2 block size; link_proc and the rec_len helpers depend on the block size only through comparisons with it (and the < 65536 branch), so this is evidence parametric in the block size, not a proof for 1024/4096-byte blocks, which CBMC cannot do (every typed access at a symbolic offset costs O(block size) and the SAT problem grows ~5x per doubling: 64 B 14 s, 128 B 70 s, 256 B > 250 s per clause)", "requested names are therefore limited to what fits (name_len <= 120); IN.namelen itself ranges over 1..255", "the entry handed to the callback satisfies what ext2fs_process_dir_block checks before calling: 4-aligned offset < blocksize-8, rec_len >= 8, multiple of 4, offset+rec_len <= blocksize, name_len+8 <= rec_len, and it is not the checksum tail (the caller does not pass DIRENT_FLAG_INCLUDE_CSUM)", "ls->namelen == strlen(ls->name) <= 255, ls->err == 0, ls->sb == fs->super, callback blocksize == fs->blocksize (block directories; inline-data directories are not covered)", "libc strncpy is an over-approximating stub in the unit: the whole block becomes arbitrary except that, at every byte position the code or the specification later reads (headers of E, of the entry behind E, of the tail slot, the frame byte k, name byte j of both entries), bytes outside dst[0..n) are unchanged and dst[j] has the ISO C value; destination range asserted to be inside the block", "without the filetype feature the type byte of the new entry is only claimed to be 0 when the reused slot's stale type byte was 0 (always the case on a filesystem that never had the feature)", "superblock feature words other than metadata_csum / filetype bits arbitrary"],
+ "assumes": ["SYMBOLIC BLOCK OF 128 BYTES (blocksize argument and fs->blocksize are 128): smaller than any legal ext2 block size, i.e. evidence parametric in the block size (see link_proc_1k_c* for a real block size); link_proc and the rec_len helpers depend on the block size only through comparisons with it (and the < 65536 branch); units exist for 64 and 128 B (all pre-states in one run), 256 B and 1 KiB (the smallest legal ext2 block; four exhaustive pre-state cases, kissat); 4 KiB is beyond the time budget (every typed access at a symbolic offset costs O(block size))", "requested names are therefore limited to what fits (name_len <= 120); IN.namelen itself ranges over 1..255", "the entry handed to the callback satisfies what ext2fs_process_dir_block checks before calling: 4-aligned offset < blocksize-8, rec_len >= 8, multiple of 4, offset+rec_len <= blocksize, name_len+8 <= rec_len, and it is not the checksum tail (the caller does not pass DIRENT_FLAG_INCLUDE_CSUM)", "ls->namelen == strlen(ls->name) <= 255, ls->err == 0, ls->sb == fs->super, callback blocksize == fs->blocksize (block directories; inline-data directories are not covered)", "libc strncpy is an over-approximating stub in the unit: the whole block becomes arbitrary except that, at every byte position the code or the specification later reads (headers of E, of the entry behind E, of the tail slot, the frame byte k, name byte j of both entries), bytes outside dst[0..n) are unchanged and dst[j] has the ISO C value; destination range asserted to be inside the block", "without the filetype feature the type byte of the new entry is only claimed to be 0 when the reused slot's stale type byte was 0 (always the case on a filesystem that never had the feature)", "superblock feature words other than metadata_csum / filetype bits arbitrary"],
  "native": false
 }
 */
@@ -81,7 +81,7 @@
  "unwind_reason": "link_proc is loop-free; only harness/stub loops are unwound: over the 255 possible name bytes (name_len is an 8-bit on-disk field); unwinding assertions on",
  "timeout": 900,
  "functions": ["lib/ext2fs/link.c:link_proc", "lib/ext2fs/dir_iterate.c:ext2fs_get_rec_len", "lib/ext2fs/dir_iterate.c:ext2fs_set_rec_len"],
- "assumes": ["SYMBOLIC BLOCK OF 256 BYTES (blocksize argument and fs->blocksize are 256): smaller than any legal ext2 block size; link_proc and the rec_len helpers depend on the block size only through comparisons with it (and the < 65536 branch), so this is evidence parametric in the block size, not a proof for 1024/4096-byte blocks, which CBMC cannot do (every typed access at a symbolic offset costs O(block size) and the SAT problem grows ~5x per doubling: 64 B 14 s, 128 B 70 s, 256 B > 250 s per clause); pre-state case: E unused, follower not absorbable", "requested names are therefore limited to what fits (name_len <= 248); IN.namelen itself ranges over 1..255", "the entry handed to the callback satisfies what ext2fs_process_dir_block checks before calling: 4-aligned offset < blocksize-8, rec_len >= 8, multiple of 4, offset+rec_len <= blocksize, name_len+8 <= rec_len, and it is not the checksum tail (the caller does not pass DIRENT_FLAG_INCLUDE_CSUM)", "ls->namelen == strlen(ls->name) <= 255, ls->err == 0, ls->sb == fs->super, callback blocksize == fs->blocksize (block directories; inline-data directories are not covered)", "libc strncpy is an over-approximating stub in the unit: the whole block becomes arbitrary except that, at every byte position the code or the specification later reads (headers of E, of the entry behind E, of the tail slot, the frame byte k, name byte j of both entries), bytes outside dst[0..n) are unchanged and dst[j] has the ISO C value; destination range asserted to be inside the block", "without the filetype feature the type byte of the new entry is only claimed to be 0 when the reused slot's stale type byte was 0 (always the case on a filesystem that never had the feature)", "superblock feature words other than metadata_csum / filetype bits arbitrary"],
+ "assumes": ["SYMBOLIC BLOCK OF 256 BYTES (blocksize argument and fs->blocksize are 256): smaller than any legal ext2 block size, i.e. evidence parametric in the block size (see link_proc_1k_c* for a real block size); link_proc and the rec_len helpers depend on the block size only through comparisons with it (and the < 65536 branch); units exist for 64 and 128 B (all pre-states in one run), 256 B and 1 KiB (the smallest legal ext2 block; four exhaustive pre-state cases, kissat); 4 KiB is beyond the time budget (every typed access at a symbolic offset costs O(block size)); pre-state case: E unused, follower not absorbable", "requested names are therefore limited to what fits (name_len <= 248); IN.namelen itself ranges over 1..255", "the entry handed to the callback satisfies what ext2fs_process_dir_block checks before calling: 4-aligned offset < blocksize-8, rec_len >= 8, multiple of 4, offset+rec_len <= blocksize, name_len+8 <= rec_len, and it is not the checksum tail (the caller does not pass DIRENT_FLAG_INCLUDE_CSUM)", "ls->namelen == strlen(ls->name) <= 255, ls->err == 0, ls->sb == fs->super, callback blocksize == fs->blocksize (block directories; inline-data directories are not covered)", "libc strncpy is an over-approximating stub in the unit: the whole block becomes arbitrary except that, at every byte position the code or the specification later reads (headers of E, of the entry behind E, of the tail slot, the frame byte k, name byte j of both entries), bytes outside dst[0..n) are unchanged and dst[j] has the ISO C value; destination range asserted to be inside the block", "without the filetype feature the type byte of the new entry is only claimed to be 0 when the reused slot's stale type byte was 0 (always the case on a filesystem that never had the feature)", "superblock feature words other than metadata_csum / filetype bits arbitrary"],
  "backend": "kissat",
  "native": false
 }
@@ -101,7 +101,7 @@
  "unwind_reason": "link_proc is loop-free; only harness/stub loops are unwound: over the 255 possible name bytes (name_len is an 8-bit on-disk field); unwinding assertions on",
  "timeout": 900,
  "functions": ["lib/ext2fs/link.c:link_proc", "lib/ext2fs/dir_iterate.c:ext2fs_get_rec_len", "lib/ext2fs/dir_iterate.c:ext2fs_set_rec_len"],
- "assumes": ["SYMBOLIC BLOCK OF 256 BYTES (blocksize argument and fs->blocksize are 256): smaller than any legal ext2 block size; link_proc and the rec_len helpers depend on the block size only through comparisons with it (and the < 65536 branch), so this is evidence parametric in the block size, not a proof for 1024/4096-byte blocks, which CBMC cannot do (every typed access at a symbolic offset costs O(block size) and the SAT problem grows ~5x per doubling: 64 B 14 s, 128 B 70 s, 256 B > 250 s per clause); pre-state case: E unused, follower absorbable", "requested names are therefore limited to what fits (name_len <= 248); IN.namelen itself ranges over 1..255", "the entry handed to the callback satisfies what ext2fs_process_dir_block checks before calling: 4-aligned offset < blocksize-8, rec_len >= 8, multiple of 4, offset+rec_len <= blocksize, name_len+8 <= rec_len, and it is not the checksum tail (the caller does not pass DIRENT_FLAG_INCLUDE_CSUM)", "ls->namelen == strlen(ls->name) <= 255, ls->err == 0, ls->sb == fs->super, callback blocksize == fs->blocksize (block directories; inline-data directories are not covered)", "libc strncpy is an over-approximating stub in the unit: the whole block becomes arbitrary except that, at every byte position the code or the specification later reads (headers of E, of the entry behind E, of the tail slot, the frame byte k, name byte j of both entries), bytes outside dst[0..n) are unchanged and dst[j] has the ISO C value; destination range asserted to be inside the block", "without the filetype feature the type byte of the new entry is only claimed to be 0 when the reused slot's stale type byte was 0 (always the case on a filesystem that never had the feature)", "superblock feature words other than metadata_csum / filetype bits arbitrary"],
+ "assumes": ["SYMBOLIC BLOCK OF 256 BYTES (blocksize argument and fs->blocksize are 256): smaller than any legal ext2 block size, i.e. evidence parametric in the block size (see link_proc_1k_c* for a real block size); link_proc and the rec_len helpers depend on the block size only through comparisons with it (and the < 65536 branch); units exist for 64 and 128 B (all pre-states in one run), 256 B and 1 KiB (the smallest legal ext2 block; four exhaustive pre-state cases, kissat); 4 KiB is beyond the time budget (every typed access at a symbolic offset costs O(block size)); pre-state case: E unused, follower absorbable", "requested names are therefore limited to what fits (name_len <= 248); IN.namelen itself ranges over 1..255", "the entry handed to the callback satisfies what ext2fs_process_dir_block checks before calling: 4-aligned offset < blocksize-8, rec_len >= 8, multiple of 4, offset+rec_len <= blocksize, name_len+8 <= rec_len, and it is not the checksum tail (the caller does not pass DIRENT_FLAG_INCLUDE_CSUM)", "ls->namelen == strlen(ls->name) <= 255, ls->err == 0, ls->sb == fs->super, callback blocksize == fs->blocksize (block directories; inline-data directories are not covered)", "libc strncpy is an over-approximating stub in the unit: the whole block becomes arbitrary except that, at every byte position the code or the specification later reads (headers of E, of the entry behind E, of the tail slot, the frame byte k, name byte j of both entries), bytes outside dst[0..n) are unchanged and dst[j] has the ISO C value; destination range asserted to be inside the block", "without the filetype feature the type byte of the new entry is only claimed to be 0 when the reused slot's stale type byte was 0 (always the case on a filesystem that never had the feature)", "superblock feature words other than metadata_csum / filetype bits arbitrary"],
  "backend": "kissat",
  "native": false
 }
@@ -121,7 +121,7 @@
  "unwind_reason": "link_proc is loop-free; only harness/stub loops are unwound: over the 255 possible name bytes (name_len is an 8-bit on-disk field); unwinding assertions on",
  "timeout": 900,
  "functions": ["lib/ext2fs/link.c:link_proc", "lib/ext2fs/dir_iterate.c:ext2fs_get_rec_len", "lib/ext2fs/dir_iterate.c:ext2fs_set_rec_len"],
- "assumes": ["SYMBOLIC BLOCK OF 256 BYTES (blocksize argument and fs->blocksize are 256): smaller than any legal ext2 block size; link_proc and the rec_len helpers depend on the block size only through comparisons with it (and the < 65536 branch), so this is evidence parametric in the block size, not a proof for 1024/4096-byte blocks, which CBMC cannot do (every typed access at a symbolic offset costs O(block size) and the SAT problem grows ~5x per doubling: 64 B 14 s, 128 B 70 s, 256 B > 250 s per clause); pre-state case: E live, follower not absorbable", "requested names are therefore limited to what fits (name_len <= 248); IN.namelen itself ranges over 1..255", "the entry handed to the callback satisfies what ext2fs_process_dir_block checks before calling: 4-aligned offset < blocksize-8, rec_len >= 8, multiple of 4, offset+rec_len <= blocksize, name_len+8 <= rec_len, and it is not the checksum tail (the caller does not pass DIRENT_FLAG_INCLUDE_CSUM)", "ls->namelen == strlen(ls->name) <= 255, ls->err == 0, ls->sb == fs->super, callback blocksize == fs->blocksize (block directories; inline-data directories are not covered)", "libc strncpy is an over-approximating stub in the unit: the whole block becomes arbitrary except that, at every byte position the code or the specification later reads (headers of E, of the entry behind E, of the tail slot, the frame byte k, name byte j of both entries), bytes outside dst[0..n) are unchanged and dst[j] has the ISO C value; destination range asserted to be inside the block", "without the filetype feature the type byte of the new entry is only claimed to be 0 when the reused slot's stale type byte was 0 (always the case on a filesystem that never had the feature)", "superblock feature words other than metadata_csum / filetype bits arbitrary"],
+ "assumes": ["SYMBOLIC BLOCK OF 256 BYTES (blocksize argument and fs->blocksize are 256): smaller than any legal ext2 block size, i.e. evidence parametric in the block size (see link_proc_1k_c* for a real block size); link_proc and the rec_len helpers depend on the block size only through comparisons with it (and the < 65536 branch); units exist for 64 and 128 B (all pre-states in one run), 256 B and 1 KiB (the smallest legal ext2 block; four exhaustive pre-state cases, kissat); 4 KiB is beyond the time budget (every typed access at a symbolic offset costs O(block size)); pre-state case: E live, follower not absorbable", "requested names are therefore limited to what fits (name_len <= 248); IN.namelen itself ranges over 1..255", "the entry handed to the callback satisfies what ext2fs_process_dir_block checks before calling: 4-aligned offset < blocksize-8, rec_len >= 8, multiple of 4, offset+rec_len <= blocksize, name_len+8 <= rec_len, and it is not the checksum tail (the caller does not pass DIRENT_FLAG_INCLUDE_CSUM)", "ls->namelen == strlen(ls->name) <= 255, ls->err == 0, ls->sb == fs->super, callback blocksize == fs->blocksize (block directories; inline-data directories are not covered)", "libc strncpy is an over-approximating stub in the unit: the whole block becomes arbitrary except that, at every byte position the code or the specification later reads (headers of E, of the entry behind E, of the tail slot, the frame byte k, name byte j of both entries), bytes outside dst[0..n) are unchanged and dst[j] has the ISO C value; destination range asserted to be inside the block", "without the filetype feature the type byte of the new entry is only claimed to be 0 when the reused slot's stale type byte was 0 (always the case on a filesystem that never had the feature)", "superblock feature words other than metadata_csum / filetype bits arbitrary"],
  "backend": "kissat",
  "native": false
 }
@@ -141,87 +141,7 @@
  "unwind_reason": "link_proc is loop-free; only harness/stub loops are unwound: over the 255 possible name bytes (name_len is an 8-bit on-disk field); unwinding assertions on",
  "timeout": 900,
  "functions": ["lib/ext2fs/link.c:link_proc", "lib/ext2fs/dir_iterate.c:ext2fs_get_rec_len", "lib/ext2fs/dir_iterate.c:ext2fs_set_rec_len"],
- "assumes": ["SYMBOLIC BLOCK OF 256 BYTES (blocksize argument and fs->blocksize are 256): smaller than any legal ext2 block size; link_proc and the rec_len helpers depend on the block size only through comparisons with it (and the < 65536 branch), so this is evidence parametric in the block size, not a proof for 1024/4096-byte blocks, which CBMC cannot do (every typed access at a symbolic offset costs O(block size) and the SAT problem grows ~5x per doubling: 64 B 14 s, 128 B 70 s, 256 B > 250 s per clause); pre-state case: E live, follower absorbable", "requested names are therefore limited to what fits (name_len <= 248); IN.namelen itself ranges over 1..255", "the entry handed to the callback satisfies what ext2fs_process_dir_block checks before calling: 4-aligned offset < blocksize-8, rec_len >= 8, multiple of 4, offset+rec_len <= blocksize, name_len+8 <= rec_len, and it is not the checksum tail (the caller does not pass DIRENT_FLAG_INCLUDE_CSUM)", "ls->namelen == strlen(ls->name) <= 255, ls->err == 0, ls->sb == fs->super, callback blocksize == fs->blocksize (block directories; inline-data directories are not covered)", "libc strncpy is an over-approximating stub in the unit: the whole block becomes arbitrary except that, at every byte position the code or the specification later reads (headers of E, of the entry behind E, of the tail slot, the frame byte k, name byte j of both entries), bytes outside dst[0..n) are unchanged and dst[j] has the ISO C value; destination range asserted to be inside the block", "without the filetype feature the type byte of the new entry is only claimed to be 0 when the reused slot's stale type byte was 0 (always the case on a filesystem that never had the feature)", "superblock feature words other than metadata_csum / filetype bits arbitrary"],
- "backend": "kissat",
- "native": false
-}
-*/
-/* VERIF-UNIT
-{
- "name": "link_proc_512_c0",
- "props": ["C10"],
- "level": "U",
- "tier": "wip",
- "harness": "h_link_proc",
- "enforce": ["link_proc"],
- "defines": ["LP_BS=512", "LP_CASE=0"],
- "sources": ["lib/ext2fs/dir_iterate.c"],
- "unwind": 6,
- "unwindset": {"h_link_proc.0": 257, "strncpy.0": 257},
- "unwind_reason": "link_proc is loop-free; only harness/stub loops are unwound: over the 255 possible name bytes (name_len is an 8-bit on-disk field); unwinding assertions on",
- "timeout": 1800,
- "functions": ["lib/ext2fs/link.c:link_proc", "lib/ext2fs/dir_iterate.c:ext2fs_get_rec_len", "lib/ext2fs/dir_iterate.c:ext2fs_set_rec_len"],
- "assumes": ["SYMBOLIC BLOCK OF 512 BYTES (blocksize argument and fs->blocksize are 512): smaller than any legal ext2 block size; link_proc and the rec_len helpers depend on the block size only through comparisons with it (and the < 65536 branch), so this is evidence parametric in the block size, not a proof for 1024/4096-byte blocks, which CBMC cannot do (every typed access at a symbolic offset costs O(block size) and the SAT problem grows ~5x per doubling: 64 B 14 s, 128 B 70 s, 256 B > 250 s per clause); pre-state case: E unused, follower not absorbable", "requested names are therefore limited to what fits (name_len <= 255); IN.namelen itself ranges over 1..255", "the entry handed to the callback satisfies what ext2fs_process_dir_block checks before calling: 4-aligned offset < blocksize-8, rec_len >= 8, multiple of 4, offset+rec_len <= blocksize, name_len+8 <= rec_len, and it is not the checksum tail (the caller does not pass DIRENT_FLAG_INCLUDE_CSUM)", "ls->namelen == strlen(ls->name) <= 255, ls->err == 0, ls->sb == fs->super, callback blocksize == fs->blocksize (block directories; inline-data directories are not covered)", "libc strncpy is an over-approximating stub in the unit: the whole block becomes arbitrary except that, at every byte position the code or the specification later reads (headers of E, of the entry behind E, of the tail slot, the frame byte k, name byte j of both entries), bytes outside dst[0..n) are unchanged and dst[j] has the ISO C value; destination range asserted to be inside the block", "without the filetype feature the type byte of the new entry is only claimed to be 0 when the reused slot's stale type byte was 0 (always the case on a filesystem that never had the feature)", "superblock feature words other than metadata_csum / filetype bits arbitrary"],
- "backend": "kissat",
- "native": false
-}
-*/
-/* VERIF-UNIT
-{
- "name": "link_proc_512_c1",
- "props": ["C10"],
- "level": "U",
- "tier": "wip",
- "harness": "h_link_proc",
- "enforce": ["link_proc"],
- "defines": ["LP_BS=512", "LP_CASE=1"],
- "sources": ["lib/ext2fs/dir_iterate.c"],
- "unwind": 6,
- "unwindset": {"h_link_proc.0": 257, "strncpy.0": 257},
- "unwind_reason": "link_proc is loop-free; only harness/stub loops are unwound: over the 255 possible name bytes (name_len is an 8-bit on-disk field); unwinding assertions on",
- "timeout": 1800,
- "functions": ["lib/ext2fs/link.c:link_proc", "lib/ext2fs/dir_iterate.c:ext2fs_get_rec_len", "lib/ext2fs/dir_iterate.c:ext2fs_set_rec_len"],
- "assumes": ["SYMBOLIC BLOCK OF 512 BYTES (blocksize argument and fs->blocksize are 512): smaller than any legal ext2 block size; link_proc and the rec_len helpers depend on the block size only through comparisons with it (and the < 65536 branch), so this is evidence parametric in the block size, not a proof for 1024/4096-byte blocks, which CBMC cannot do (every typed access at a symbolic offset costs O(block size) and the SAT problem grows ~5x per doubling: 64 B 14 s, 128 B 70 s, 256 B > 250 s per clause); pre-state case: E unused, follower absorbable", "requested names are therefore limited to what fits (name_len <= 255); IN.namelen itself ranges over 1..255", "the entry handed to the callback satisfies what ext2fs_process_dir_block checks before calling: 4-aligned offset < blocksize-8, rec_len >= 8, multiple of 4, offset+rec_len <= blocksize, name_len+8 <= rec_len, and it is not the checksum tail (the caller does not pass DIRENT_FLAG_INCLUDE_CSUM)", "ls->namelen == strlen(ls->name) <= 255, ls->err == 0, ls->sb == fs->super, callback blocksize == fs->blocksize (block directories; inline-data directories are not covered)", "libc strncpy is an over-approximating stub in the unit: the whole block becomes arbitrary except that, at every byte position the code or the specification later reads (headers of E, of the entry behind E, of the tail slot, the frame byte k, name byte j of both entries), bytes outside dst[0..n) are unchanged and dst[j] has the ISO C value; destination range asserted to be inside the block", "without the filetype feature the type byte of the new entry is only claimed to be 0 when the reused slot's stale type byte was 0 (always the case on a filesystem that never had the feature)", "superblock feature words other than metadata_csum / filetype bits arbitrary"],
- "backend": "kissat",
- "native": false
-}
-*/
-/* VERIF-UNIT
-{
- "name": "link_proc_512_c2",
- "props": ["C10"],
- "level": "U",
- "tier": "wip",
- "harness": "h_link_proc",
- "enforce": ["link_proc"],
- "defines": ["LP_BS=512", "LP_CASE=2"],
- "sources": ["lib/ext2fs/dir_iterate.c"],
- "unwind": 6,
- "unwindset": {"h_link_proc.0": 257, "strncpy.0": 257},
- "unwind_reason": "link_proc is loop-free; only harness/stub loops are unwound: over the 255 possible name bytes (name_len is an 8-bit on-disk field); unwinding assertions on",
- "timeout": 1800,
- "functions": ["lib/ext2fs/link.c:link_proc", "lib/ext2fs/dir_iterate.c:ext2fs_get_rec_len", "lib/ext2fs/dir_iterate.c:ext2fs_set_rec_len"],
- "assumes": ["SYMBOLIC BLOCK OF 512 BYTES (blocksize argument and fs->blocksize are 512): smaller than any legal ext2 block size; link_proc and the rec_len helpers depend on the block size only through comparisons with it (and the < 65536 branch), so this is evidence parametric in the block size, not a proof for 1024/4096-byte blocks, which CBMC cannot do (every typed access at a symbolic offset costs O(block size) and the SAT problem grows ~5x per doubling: 64 B 14 s, 128 B 70 s, 256 B > 250 s per clause); pre-state case: E live, follower not absorbable", "requested names are therefore limited to what fits (name_len <= 255); IN.namelen itself ranges over 1..255", "the entry handed to the callback satisfies what ext2fs_process_dir_block checks before calling: 4-aligned offset < blocksize-8, rec_len >= 8, multiple of 4, offset+rec_len <= blocksize, name_len+8 <= rec_len, and it is not the checksum tail (the caller does not pass DIRENT_FLAG_INCLUDE_CSUM)", "ls->namelen == strlen(ls->name) <= 255, ls->err == 0, ls->sb == fs->super, callback blocksize == fs->blocksize (block directories; inline-data directories are not covered)", "libc strncpy is an over-approximating stub in the unit: the whole block becomes arbitrary except that, at every byte position the code or the specification later reads (headers of E, of the entry behind E, of the tail slot, the frame byte k, name byte j of both entries), bytes outside dst[0..n) are unchanged and dst[j] has the ISO C value; destination range asserted to be inside the block", "without the filetype feature the type byte of the new entry is only claimed to be 0 when the reused slot's stale type byte was 0 (always the case on a filesystem that never had the feature)", "superblock feature words other than metadata_csum / filetype bits arbitrary"],
- "backend": "kissat",
- "native": false
-}
-*/
-/* VERIF-UNIT
-{
- "name": "link_proc_512_c3",
- "props": ["C10"],
- "level": "U",
- "tier": "wip",
- "harness": "h_link_proc",
- "enforce": ["link_proc"],
- "defines": ["LP_BS=512", "LP_CASE=3"],
- "sources": ["lib/ext2fs/dir_iterate.c"],
- "unwind": 6,
- "unwindset": {"h_link_proc.0": 257, "strncpy.0": 257},
- "unwind_reason": "link_proc is loop-free; only harness/stub loops are unwound: over the 255 possible name bytes (name_len is an 8-bit on-disk field); unwinding assertions on",
- "timeout": 1800,
- "functions": ["lib/ext2fs/link.c:link_proc", "lib/ext2fs/dir_iterate.c:ext2fs_get_rec_len", "lib/ext2fs/dir_iterate.c:ext2fs_set_rec_len"],
- "assumes": ["SYMBOLIC BLOCK OF 512 BYTES (blocksize argument and fs->blocksize are 512): smaller than any legal ext2 block size; link_proc and the rec_len helpers depend on the block size only through comparisons with it (and the < 65536 branch), so this is evidence parametric in the block size, not a proof for 1024/4096-byte blocks, which CBMC cannot do (every typed access at a symbolic offset costs O(block size) and the SAT problem grows ~5x per doubling: 64 B 14 s, 128 B 70 s, 256 B > 250 s per clause); pre-state case: E live, follower absorbable", "requested names are therefore limited to what fits (name_len <= 255); IN.namelen itself ranges over 1..255", "the entry handed to the callback satisfies what ext2fs_process_dir_block checks before calling: 4-aligned offset < blocksize-8, rec_len >= 8, multiple of 4, offset+rec_len <= blocksize, name_len+8 <= rec_len, and it is not the checksum tail (the caller does not pass DIRENT_FLAG_INCLUDE_CSUM)", "ls->namelen == strlen(ls->name) <= 255, ls->err == 0, ls->sb == fs->super, callback blocksize == fs->blocksize (block directories; inline-data directories are not covered)", "libc strncpy is an over-approximating stub in the unit: the whole block becomes arbitrary except that, at every byte position the code or the specification later reads (headers of E, of the entry behind E, of the tail slot, the frame byte k, name byte j of both entries), bytes outside dst[0..n) are unchanged and dst[j] has the ISO C value; destination range asserted to be inside the block", "without the filetype feature the type byte of the new entry is only claimed to be 0 when the reused slot's stale type byte was 0 (always the case on a filesystem that never had the feature)", "superblock feature words other than metadata_csum / filetype bits arbitrary"],
+ "assumes": ["SYMBOLIC BLOCK OF 256 BYTES (blocksize argument and fs->blocksize are 256): smaller than any legal ext2 block size, i.e. evidence parametric in the block size (see link_proc_1k_c* for a real block size); link_proc and the rec_len helpers depend on the block size only through comparisons with it (and the < 65536 branch); units exist for 64 and 128 B (all pre-states in one run), 256 B and 1 KiB (the smallest legal ext2 block; four exhaustive pre-state cases, kissat); 4 KiB is beyond the time budget (every typed access at a symbolic offset costs O(block size)); pre-state case: E live, follower absorbable", "requested names are therefore limited to what fits (name_len <= 248); IN.namelen itself ranges over 1..255", "the entry handed to the callback satisfies what ext2fs_process_dir_block checks before calling: 4-aligned offset < blocksize-8, rec_len >= 8, multiple of 4, offset+rec_len <= blocksize, name_len+8 <= rec_len, and it is not the checksum tail (the caller does not pass DIRENT_FLAG_INCLUDE_CSUM)", "ls->namelen == strlen(ls->name) <= 255, ls->err == 0, ls->sb == fs->super, callback blocksize == fs->blocksize (block directories; inline-data directories are not covered)", "libc strncpy is an over-approximating stub in the unit: the whole block becomes arbitrary except that, at every byte position the code or the specification later reads (headers of E, of the entry behind E, of the tail slot, the frame byte k, name byte j of both entries), bytes outside dst[0..n) are unchanged and dst[j] has the ISO C value; destination range asserted to be inside the block", "without the filetype feature the type byte of the new entry is only claimed to be 0 when the reused slot's stale type byte was 0 (always the case on a filesystem that never had the feature)", "superblock feature words other than metadata_csum / filetype bits arbitrary"],
  "backend": "kissat",
  "native": false
 }
@@ -231,7 +151,7 @@
  "name": "link_proc_1k_c0",
  "props": ["C10"],
  "level": "U",
- "tier": "wip",
+ "tier": "thorough",
  "harness": "h_link_proc",
  "enforce": ["link_proc"],
  "defines": ["LP_BS=1024", "LP_CASE=0"],
@@ -239,9 +159,9 @@
  "unwind": 6,
  "unwindset": {"h_link_proc.0": 257, "strncpy.0": 257},
  "unwind_reason": "link_proc is loop-free; only harness/stub loops are unwound: over the 255 possible name bytes (name_len is an 8-bit on-disk field); unwinding assertions on",
- "timeout": 3000,
+ "timeout": 1800,
  "functions": ["lib/ext2fs/link.c:link_proc", "lib/ext2fs/dir_iterate.c:ext2fs_get_rec_len", "lib/ext2fs/dir_iterate.c:ext2fs_set_rec_len"],
- "assumes": ["SYMBOLIC BLOCK OF 1024 BYTES (blocksize argument and fs->blocksize are 1024): smaller than any legal ext2 block size; link_proc and the rec_len helpers depend on the block size only through comparisons with it (and the < 65536 branch), so this is evidence parametric in the block size, not a proof for 1024/4096-byte blocks, which CBMC cannot do (every typed access at a symbolic offset costs O(block size) and the SAT problem grows ~5x per doubling: 64 B 14 s, 128 B 70 s, 256 B > 250 s per clause); pre-state case: E unused, follower not absorbable", "requested names are therefore limited to what fits (name_len <= 255); IN.namelen itself ranges over 1..255", "the entry handed to the callback satisfies what ext2fs_process_dir_block checks before calling: 4-aligned offset < blocksize-8, rec_len >= 8, multiple of 4, offset+rec_len <= blocksize, name_len+8 <= rec_len, and it is not the checksum tail (the caller does not pass DIRENT_FLAG_INCLUDE_CSUM)", "ls->namelen == strlen(ls->name) <= 255, ls->err == 0, ls->sb == fs->super, callback blocksize == fs->blocksize (block directories; inline-data directories are not covered)", "libc strncpy is an over-approximating stub in the unit: the whole block becomes arbitrary except that, at every byte position the code or the specification later reads (headers of E, of the entry behind E, of the tail slot, the frame byte k, name byte j of both entries), bytes outside dst[0..n) are unchanged and dst[j] has the ISO C value; destination range asserted to be inside the block", "without the filetype feature the type byte of the new entry is only claimed to be 0 when the reused slot's stale type byte was 0 (always the case on a filesystem that never had the feature)", "superblock feature words other than metadata_csum / filetype bits arbitrary"],
+ "assumes": ["SYMBOLIC BLOCK OF 1024 BYTES (blocksize argument and fs->blocksize are 1024): link_proc and the rec_len helpers depend on the block size only through comparisons with it (and the < 65536 branch); units exist for 64 and 128 B (all pre-states in one run), 256 B and 1 KiB (the smallest legal ext2 block; four exhaustive pre-state cases, kissat); 4 KiB is beyond the time budget (every typed access at a symbolic offset costs O(block size)); pre-state case: E unused, follower not absorbable", "requested names are therefore limited to what fits (name_len <= 255); IN.namelen itself ranges over 1..255", "the entry handed to the callback satisfies what ext2fs_process_dir_block checks before calling: 4-aligned offset < blocksize-8, rec_len >= 8, multiple of 4, offset+rec_len <= blocksize, name_len+8 <= rec_len, and it is not the checksum tail (the caller does not pass DIRENT_FLAG_INCLUDE_CSUM)", "ls->namelen == strlen(ls->name) <= 255, ls->err == 0, ls->sb == fs->super, callback blocksize == fs->blocksize (block directories; inline-data directories are not covered)", "libc strncpy is an over-approximating stub in the unit: the whole block becomes arbitrary except that, at every byte position the code or the specification later reads (headers of E, of the entry behind E, of the tail slot, the frame byte k, name byte j of both entries), bytes outside dst[0..n) are unchanged and dst[j] has the ISO C value; destination range asserted to be inside the block", "without the filetype feature the type byte of the new entry is only claimed to be 0 when the reused slot's stale type byte was 0 (always the case on a filesystem that never had the feature)", "superblock feature words other than metadata_csum / filetype bits arbitrary"],
  "backend": "kissat",
  "native": false
 }
@@ -251,7 +171,7 @@
  "name": "link_proc_1k_c1",
  "props": ["C10"],
  "level": "U",
- "tier": "wip",
+ "tier": "thorough",
  "harness": "h_link_proc",
  "enforce": ["link_proc"],
  "defines": ["LP_BS=1024", "LP_CASE=1"],
@@ -259,9 +179,9 @@
  "unwind": 6,
  "unwindset": {"h_link_proc.0": 257, "strncpy.0": 257},
  "unwind_reason": "link_proc is loop-free; only harness/stub loops are unwound: over the 255 possible name bytes (name_len is an 8-bit on-disk field); unwinding assertions on",
- "timeout": 3000,
+ "timeout": 1800,
  "functions": ["lib/ext2fs/link.c:link_proc", "lib/ext2fs/dir_iterate.c:ext2fs_get_rec_len", "lib/ext2fs/dir_iterate.c:ext2fs_set_rec_len"],
- "assumes": ["SYMBOLIC BLOCK OF 1024 BYTES (blocksize argument and fs->blocksize are 1024): smaller than any legal ext2 block size; link_proc and the rec_len helpers depend on the block size only through comparisons with it (and the < 65536 branch), so this is evidence parametric in the block size, not a proof for 1024/4096-byte blocks, which CBMC cannot do (every typed access at a symbolic offset costs O(block size) and the SAT problem grows ~5x per doubling: 64 B 14 s, 128 B 70 s, 256 B > 250 s per clause); pre-state case: E unused, follower absorbable", "requested names are therefore limited to what fits (name_len <= 255); IN.namelen itself ranges over 1..255", "the entry handed to the callback satisfies what ext2fs_process_dir_block checks before calling: 4-aligned offset < blocksize-8, rec_len >= 8, multiple of 4, offset+rec_len <= blocksize, name_len+8 <= rec_len, and it is not the checksum tail (the caller does not pass DIRENT_FLAG_INCLUDE_CSUM)", "ls->namelen == strlen(ls->name) <= 255, ls->err == 0, ls->sb == fs->super, callback blocksize == fs->blocksize (block directories; inline-data directories are not covered)", "libc strncpy is an over-approximating stub in the unit: the whole block becomes arbitrary except that, at every byte position the code or the specification later reads (headers of E, of the entry behind E, of the tail slot, the frame byte k, name byte j of both entries), bytes outside dst[0..n) are unchanged and dst[j] has the ISO C value; destination range asserted to be inside the block", "without the filetype feature the type byte of the new entry is only claimed to be 0 when the reused slot's stale type byte was 0 (always the case on a filesystem that never had the feature)", "superblock feature words other than metadata_csum / filetype bits arbitrary"],
+ "assumes": ["SYMBOLIC BLOCK OF 1024 BYTES (blocksize argument and fs->blocksize are 1024): link_proc and the rec_len helpers depend on the block size only through comparisons with it (and the < 65536 branch); units exist for 64 and 128 B (all pre-states in one run), 256 B and 1 KiB (the smallest legal ext2 block; four exhaustive pre-state cases, kissat); 4 KiB is beyond the time budget (every typed access at a symbolic offset costs O(block size)); pre-state case: E unused, follower absorbable", "requested names are therefore limited to what fits (name_len <= 255); IN.namelen itself ranges over 1..255", "the entry handed to the callback satisfies what ext2fs_process_dir_block checks before calling: 4-aligned offset < blocksize-8, rec_len >= 8, multiple of 4, offset+rec_len <= blocksize, name_len+8 <= rec_len, and it is not the checksum tail (the caller does not pass DIRENT_FLAG_INCLUDE_CSUM)", "ls->namelen == strlen(ls->name) <= 255, ls->err == 0, ls->sb == fs->super, callback blocksize == fs->blocksize (block directories; inline-data directories are not covered)", "libc strncpy is an over-approximating stub in the unit: the whole block becomes arbitrary except that, at every byte position the code or the specification later reads (headers of E, of the entry behind E, of the tail slot, the frame byte k, name byte j of both entries), bytes outside dst[0..n) are unchanged and dst[j] has the ISO C value; destination range asserted to be inside the block", "without the filetype feature the type byte of the new entry is only claimed to be 0 when the reused slot's stale type byte was 0 (always the case on a filesystem that never had the feature)", "superblock feature words other than metadata_csum / filetype bits arbitrary"],
  "backend": "kissat",
  "native": false
 }
@@ -271,7 +191,7 @@
  "name": "link_proc_1k_c2",
  "props": ["C10"],
  "level": "U",
- "tier": "wip",
+ "tier": "thorough",
  "harness": "h_link_proc",
  "enforce": ["link_proc"],
  "defines": ["LP_BS=1024", "LP_CASE=2"],
@@ -279,9 +199,9 @@
  "unwind": 6,
  "unwindset": {"h_link_proc.0": 257, "strncpy.0": 257},
  "unwind_reason": "link_proc is loop-free; only harness/stub loops are unwound: over the 255 possible name bytes (name_len is an 8-bit on-disk field); unwinding assertions on",
- "timeout": 3000,
+ "timeout": 1800,
  "functions": ["lib/ext2fs/link.c:link_proc", "lib/ext2fs/dir_iterate.c:ext2fs_get_rec_len", "lib/ext2fs/dir_iterate.c:ext2fs_set_rec_len"],
- "assumes": ["SYMBOLIC BLOCK OF 1024 BYTES (blocksize argument and fs->blocksize are 1024): smaller than any legal ext2 block size; link_proc and the rec_len helpers depend on the block size only through comparisons with it (and the < 65536 branch), so this is evidence parametric in the block size, not a proof for 1024/4096-byte blocks, which CBMC cannot do (every typed access at a symbolic offset costs O(block size) and the SAT problem grows ~5x per doubling: 64 B 14 s, 128 B 70 s, 256 B > 250 s per clause); pre-state case: E live, follower not absorbable", "requested names are therefore limited to what fits (name_len <= 255); IN.namelen itself ranges over 1..255", "the entry handed to the callback satisfies what ext2fs_process_dir_block checks before calling: 4-aligned offset < blocksize-8, rec_len >= 8, multiple of 4, offset+rec_len <= blocksize, name_len+8 <= rec_len, and it is not the checksum tail (the caller does not pass DIRENT_FLAG_INCLUDE_CSUM)", "ls->namelen == strlen(ls->name) <= 255, ls->err == 0, ls->sb == fs->super, callback blocksize == fs->blocksize (block directories; inline-data directories are not covered)", "libc strncpy is an over-approximating stub in the unit: the whole block becomes arbitrary except that, at every byte position the code or the specification later reads (headers of E, of the entry behind E, of the tail slot, the frame byte k, name byte j of both entries), bytes outside dst[0..n) are unchanged and dst[j] has the ISO C value; destination range asserted to be inside the block", "without the filetype feature the type byte of the new entry is only claimed to be 0 when the reused slot's stale type byte was 0 (always the case on a filesystem that never had the feature)", "superblock feature words other than metadata_csum / filetype bits arbitrary"],
+ "assumes": ["SYMBOLIC BLOCK OF 1024 BYTES (blocksize argument and fs->blocksize are 1024): link_proc and the rec_len helpers depend on the block size only through comparisons with it (and the < 65536 branch); units exist for 64 and 128 B (all pre-states in one run), 256 B and 1 KiB (the smallest legal ext2 block; four exhaustive pre-state cases, kissat); 4 KiB is beyond the time budget (every typed access at a symbolic offset costs O(block size)); pre-state case: E live, follower not absorbable", "requested names are therefore limited to what fits (name_len <= 255); IN.namelen itself ranges over 1..255", "the entry handed to the callback satisfies what ext2fs_process_dir_block checks before calling: 4-aligned offset < blocksize-8, rec_len >= 8, multiple of 4, offset+rec_len <= blocksize, name_len+8 <= rec_len, and it is not the checksum tail (the caller does not pass DIRENT_FLAG_INCLUDE_CSUM)", "ls->namelen == strlen(ls->name) <= 255, ls->err == 0, ls->sb == fs->super, callback blocksize == fs->blocksize (block directories; inline-data directories are not covered)", "libc strncpy is an over-approximating stub in the unit: the whole block becomes arbitrary except that, at every byte position the code or the specification later reads (headers of E, of the entry behind E, of the tail slot, the frame byte k, name byte j of both entries), bytes outside dst[0..n) are unchanged and dst[j] has the ISO C value; destination range asserted to be inside the block", "without the filetype feature the type byte of the new entry is only claimed to be 0 when the reused slot's stale type byte was 0 (always the case on a filesystem that never had the feature)", "superblock feature words other than metadata_csum / filetype bits arbitrary"],
  "backend": "kissat",
  "native": false
 }
@@ -291,7 +211,7 @@
  "name": "link_proc_1k_c3",
  "props": ["C10"],
  "level": "U",
- "tier": "wip",
+ "tier": "thorough",
  "harness": "h_link_proc",
  "enforce": ["link_proc"],
  "defines": ["LP_BS=1024", "LP_CASE=3"],
@@ -299,9 +219,89 @@
  "unwind": 6,
  "unwindset": {"h_link_proc.0": 257, "strncpy.0": 257},
  "unwind_reason": "link_proc is loop-free; only harness/stub loops are unwound: over the 255 possible name bytes (name_len is an 8-bit on-disk field); unwinding assertions on",
- "timeout": 3000,
+ "timeout": 1800,
  "functions": ["lib/ext2fs/link.c:link_proc", "lib/ext2fs/dir_iterate.c:ext2fs_get_rec_len", "lib/ext2fs/dir_iterate.c:ext2fs_set_rec_len"],
- "assumes": ["SYMBOLIC BLOCK OF 1024 BYTES (blocksize argument and fs->blocksize are 1024): smaller than any legal ext2 block size; link_proc and the rec_len helpers depend on the block size only through comparisons with it (and the < 65536 branch), so this is evidence parametric in the block size, not a proof for 1024/4096-byte blocks, which CBMC cannot do (every typed access at a symbolic offset costs O(block size) and the SAT problem grows ~5x per doubling: 64 B 14 s, 128 B 70 s, 256 B > 250 s per clause); pre-state case: E live, follower absorbable", "requested names are therefore limited to what fits (name_len <= 255); IN.namelen itself ranges over 1..255", "the entry handed to the callback satisfies what ext2fs_process_dir_block checks before calling: 4-aligned offset < blocksize-8, rec_len >= 8, multiple of 4, offset+rec_len <= blocksize, name_len+8 <= rec_len, and it is not the checksum tail (the caller does not pass DIRENT_FLAG_INCLUDE_CSUM)", "ls->namelen == strlen(ls->name) <= 255, ls->err == 0, ls->sb == fs->super, callback blocksize == fs->blocksize (block directories; inline-data directories are not covered)", "libc strncpy is an over-approximating stub in the unit: the whole block becomes arbitrary except that, at every byte position the code or the specification later reads (headers of E, of the entry behind E, of the tail slot, the frame byte k, name byte j of both entries), bytes outside dst[0..n) are unchanged and dst[j] has the ISO C value; destination range asserted to be inside the block", "without the filetype feature the type byte of the new entry is only claimed to be 0 when the reused slot's stale type byte was 0 (always the case on a filesystem that never had the feature)", "superblock feature words other than metadata_csum / filetype bits arbitrary"],
+ "assumes": ["SYMBOLIC BLOCK OF 1024 BYTES (blocksize argument and fs->blocksize are 1024): link_proc and the rec_len helpers depend on the block size only through comparisons with it (and the < 65536 branch); units exist for 64 and 128 B (all pre-states in one run), 256 B and 1 KiB (the smallest legal ext2 block; four exhaustive pre-state cases, kissat); 4 KiB is beyond the time budget (every typed access at a symbolic offset costs O(block size)); pre-state case: E live, follower absorbable", "requested names are therefore limited to what fits (name_len <= 255); IN.namelen itself ranges over 1..255", "the entry handed to the callback satisfies what ext2fs_process_dir_block checks before calling: 4-aligned offset < blocksize-8, rec_len >= 8, multiple of 4, offset+rec_len <= blocksize, name_len+8 <= rec_len, and it is not the checksum tail (the caller does not pass DIRENT_FLAG_INCLUDE_CSUM)", "ls->namelen == strlen(ls->name) <= 255, ls->err == 0, ls->sb == fs->super, callback blocksize == fs->blocksize (block directories; inline-data directories are not covered)", "libc strncpy is an over-approximating stub in the unit: the whole block becomes arbitrary except that, at every byte position the code or the specification later reads (headers of E, of the entry behind E, of the tail slot, the frame byte k, name byte j of both entries), bytes outside dst[0..n) are unchanged and dst[j] has the ISO C value; destination range asserted to be inside the block", "without the filetype feature the type byte of the new entry is only claimed to be 0 when the reused slot's stale type byte was 0 (always the case on a filesystem that never had the feature)", "superblock feature words other than metadata_csum / filetype bits arbitrary"],
+ "backend": "kissat",
+ "native": false
+}
+*/
+/* VERIF-UNIT
+{
+ "name": "link_proc_4k_c0",
+ "props": ["C10"],
+ "level": "U",
+ "tier": "wip",
+ "harness": "h_link_proc",
+ "enforce": ["link_proc"],
+ "defines": ["LP_BS=4096", "LP_CASE=0"],
+ "sources": ["lib/ext2fs/dir_iterate.c"],
+ "unwind": 6,
+ "unwindset": {"h_link_proc.0": 257, "strncpy.0": 257},
+ "unwind_reason": "link_proc is loop-free; only harness/stub loops are unwound: over the 255 possible name bytes (name_len is an 8-bit on-disk field); unwinding assertions on",
+ "timeout": 7200,
+ "functions": ["lib/ext2fs/link.c:link_proc", "lib/ext2fs/dir_iterate.c:ext2fs_get_rec_len", "lib/ext2fs/dir_iterate.c:ext2fs_set_rec_len"],
+ "assumes": ["SYMBOLIC BLOCK OF 4096 BYTES (blocksize argument and fs->blocksize are 4096): link_proc and the rec_len helpers depend on the block size only through comparisons with it (and the < 65536 branch); units exist for 64 and 128 B (all pre-states in one run), 256 B and 1 KiB (the smallest legal ext2 block; four exhaustive pre-state cases, kissat); 4 KiB is beyond the time budget (every typed access at a symbolic offset costs O(block size)); pre-state case: E unused, follower not absorbable", "requested names are therefore limited to what fits (name_len <= 255); IN.namelen itself ranges over 1..255", "the entry handed to the callback satisfies what ext2fs_process_dir_block checks before calling: 4-aligned offset < blocksize-8, rec_len >= 8, multiple of 4, offset+rec_len <= blocksize, name_len+8 <= rec_len, and it is not the checksum tail (the caller does not pass DIRENT_FLAG_INCLUDE_CSUM)", "ls->namelen == strlen(ls->name) <= 255, ls->err == 0, ls->sb == fs->super, callback blocksize == fs->blocksize (block directories; inline-data directories are not covered)", "libc strncpy is an over-approximating stub in the unit: the whole block becomes arbitrary except that, at every byte position the code or the specification later reads (headers of E, of the entry behind E, of the tail slot, the frame byte k, name byte j of both entries), bytes outside dst[0..n) are unchanged and dst[j] has the ISO C value; destination range asserted to be inside the block", "without the filetype feature the type byte of the new entry is only claimed to be 0 when the reused slot's stale type byte was 0 (always the case on a filesystem that never had the feature)", "superblock feature words other than metadata_csum / filetype bits arbitrary"],
+ "backend": "kissat",
+ "native": false
+}
+*/
+/* VERIF-UNIT
+{
+ "name": "link_proc_4k_c1",
+ "props": ["C10"],
+ "level": "U",
+ "tier": "wip",
+ "harness": "h_link_proc",
+ "enforce": ["link_proc"],
+ "defines": ["LP_BS=4096", "LP_CASE=1"],
+ "sources": ["lib/ext2fs/dir_iterate.c"],
+ "unwind": 6,
+ "unwindset": {"h_link_proc.0": 257, "strncpy.0": 257},
+ "unwind_reason": "link_proc is loop-free; only harness/stub loops are unwound: over the 255 possible name bytes (name_len is an 8-bit on-disk field); unwinding assertions on",
+ "timeout": 7200,
+ "functions": ["lib/ext2fs/link.c:link_proc", "lib/ext2fs/dir_iterate.c:ext2fs_get_rec_len", "lib/ext2fs/dir_iterate.c:ext2fs_set_rec_len"],
+ "assumes": ["SYMBOLIC BLOCK OF 4096 BYTES (blocksize argument and fs->blocksize are 4096): link_proc and the rec_len helpers depend on the block size only through comparisons with it (and the < 65536 branch); units exist for 64 and 128 B (all pre-states in one run), 256 B and 1 KiB (the smallest legal ext2 block; four exhaustive pre-state cases, kissat); 4 KiB is beyond the time budget (every typed access at a symbolic offset costs O(block size)); pre-state case: E unused, follower absorbable", "requested names are therefore limited to what fits (name_len <= 255); IN.namelen itself ranges over 1..255", "the entry handed to the callback satisfies what ext2fs_process_dir_block checks before calling: 4-aligned offset < blocksize-8, rec_len >= 8, multiple of 4, offset+rec_len <= blocksize, name_len+8 <= rec_len, and it is not the checksum tail (the caller does not pass DIRENT_FLAG_INCLUDE_CSUM)", "ls->namelen == strlen(ls->name) <= 255, ls->err == 0, ls->sb == fs->super, callback blocksize == fs->blocksize (block directories; inline-data directories are not covered)", "libc strncpy is an over-approximating stub in the unit: the whole block becomes arbitrary except that, at every byte position the code or the specification later reads (headers of E, of the entry behind E, of the tail slot, the frame byte k, name byte j of both entries), bytes outside dst[0..n) are unchanged and dst[j] has the ISO C value; destination range asserted to be inside the block", "without the filetype feature the type byte of the new entry is only claimed to be 0 when the reused slot's stale type byte was 0 (always the case on a filesystem that never had the feature)", "superblock feature words other than metadata_csum / filetype bits arbitrary"],
+ "backend": "kissat",
+ "native": false
+}
+*/
+/* VERIF-UNIT
+{
+ "name": "link_proc_4k_c2",
+ "props": ["C10"],
+ "level": "U",
+ "tier": "wip",
+ "harness": "h_link_proc",
+ "enforce": ["link_proc"],
+ "defines": ["LP_BS=4096", "LP_CASE=2"],
+ "sources": ["lib/ext2fs/dir_iterate.c"],
+ "unwind": 6,
+ "unwindset": {"h_link_proc.0": 257, "strncpy.0": 257},
+ "unwind_reason": "link_proc is loop-free; only harness/stub loops are unwound: over the 255 possible name bytes (name_len is an 8-bit on-disk field); unwinding assertions on",
+ "timeout": 7200,
+ "functions": ["lib/ext2fs/link.c:link_proc", "lib/ext2fs/dir_iterate.c:ext2fs_get_rec_len", "lib/ext2fs/dir_iterate.c:ext2fs_set_rec_len"],
+ "assumes": ["SYMBOLIC BLOCK OF 4096 BYTES (blocksize argument and fs->blocksize are 4096): link_proc and the rec_len helpers depend on the block size only through comparisons with it (and the < 65536 branch); units exist for 64 and 128 B (all pre-states in one run), 256 B and 1 KiB (the smallest legal ext2 block; four exhaustive pre-state cases, kissat); 4 KiB is beyond the time budget (every typed access at a symbolic offset costs O(block size)); pre-state case: E live, follower not absorbable", "requested names are therefore limited to what fits (name_len <= 255); IN.namelen itself ranges over 1..255", "the entry handed to the callback satisfies what ext2fs_process_dir_block checks before calling: 4-aligned offset < blocksize-8, rec_len >= 8, multiple of 4, offset+rec_len <= blocksize, name_len+8 <= rec_len, and it is not the checksum tail (the caller does not pass DIRENT_FLAG_INCLUDE_CSUM)", "ls->namelen == strlen(ls->name) <= 255, ls->err == 0, ls->sb == fs->super, callback blocksize == fs->blocksize (block directories; inline-data directories are not covered)", "libc strncpy is an over-approximating stub in the unit: the whole block becomes arbitrary except that, at every byte position the code or the specification later reads (headers of E, of the entry behind E, of the tail slot, the frame byte k, name byte j of both entries), bytes outside dst[0..n) are unchanged and dst[j] has the ISO C value; destination range asserted to be inside the block", "without the filetype feature the type byte of the new entry is only claimed to be 0 when the reused slot's stale type byte was 0 (always the case on a filesystem that never had the feature)", "superblock feature words other than metadata_csum / filetype bits arbitrary"],
+ "backend": "kissat",
+ "native": false
+}
+*/
+/* VERIF-UNIT
+{
+ "name": "link_proc_4k_c3",
+ "props": ["C10"],
+ "level": "U",
+ "tier": "wip",
+ "harness": "h_link_proc",
+ "enforce": ["link_proc"],
+ "defines": ["LP_BS=4096", "LP_CASE=3"],
+ "sources": ["lib/ext2fs/dir_iterate.c"],
+ "unwind": 6,
+ "unwindset": {"h_link_proc.0": 257, "strncpy.0": 257},
+ "unwind_reason": "link_proc is loop-free; only harness/stub loops are unwound: over the 255 possible name bytes (name_len is an 8-bit on-disk field); unwinding assertions on",
+ "timeout": 7200,
+ "functions": ["lib/ext2fs/link.c:link_proc", "lib/ext2fs/dir_iterate.c:ext2fs_get_rec_len", "lib/ext2fs/dir_iterate.c:ext2fs_set_rec_len"],
+ "assumes": ["SYMBOLIC BLOCK OF 4096 BYTES (blocksize argument and fs->blocksize are 4096): link_proc and the rec_len helpers depend on the block size only through comparisons with it (and the < 65536 branch); units exist for 64 and 128 B (all pre-states in one run), 256 B and 1 KiB (the smallest legal ext2 block; four exhaustive pre-state cases, kissat); 4 KiB is beyond the time budget (every typed access at a symbolic offset costs O(block size)); pre-state case: E live, follower absorbable", "requested names are therefore limited to what fits (name_len <= 255); IN.namelen itself ranges over 1..255", "the entry handed to the callback satisfies what ext2fs_process_dir_block checks before calling: 4-aligned offset < blocksize-8, rec_len >= 8, multiple of 4, offset+rec_len <= blocksize, name_len+8 <= rec_len, and it is not the checksum tail (the caller does not pass DIRENT_FLAG_INCLUDE_CSUM)", "ls->namelen == strlen(ls->name) <= 255, ls->err == 0, ls->sb == fs->super, callback blocksize == fs->blocksize (block directories; inline-data directories are not covered)", "libc strncpy is an over-approximating stub in the unit: the whole block becomes arbitrary except that, at every byte position the code or the specification later reads (headers of E, of the entry behind E, of the tail slot, the frame byte k, name byte j of both entries), bytes outside dst[0..n) are unchanged and dst[j] has the ISO C value; destination range asserted to be inside the block", "without the filetype feature the type byte of the new entry is only claimed to be 0 when the reused slot's stale type byte was 0 (always the case on a filesystem that never had the feature)", "superblock feature words other than metadata_csum / filetype bits arbitrary"],
  "backend": "kissat",
  "native": false
 }
